@@ -12,7 +12,11 @@ Inductive case :=
 (* a long stream: [distinct] > max topics once each, then the first [repeat] again; summary of what the
    subscriber saw: messages received, smallest / largest alias value used, messages that did not resolve (under
    the receiver's own table) to the topic they were published on, undecodable messages *)
-| CBound (max distinct repeat recv alias_min alias_max mismatch undecodable : N) (ran : bool).
+| CBound (max distinct repeat recv alias_min alias_max mismatch undecodable : N) (ran : bool)
+(* unacknowledged QoS 1 messages of a durable v5 client that uses topic aliases, across a reconnect: n messages were
+   delivered (with aliases) and not acknowledged, the connection ended; on the next connection - whose alias table is
+   empty - the n retransmissions must all arrive as well-formed packets and resolve to the topics they were published on *)
+| CResume (n recv mismatch undecodable : N) (ran : bool).
 
 Definition opt_eqb (a b : option N) : bool :=
   match a, b with Some x, Some y => x =? y | None, None => true | _, _ => false end.
@@ -47,6 +51,7 @@ Definition case_ok (c : case) : bool :=
       (* what the model sends for this stream, summarised the same way *)
       ran && (recv =? distinct + repeat) && (mismatch =? 0) && (undec =? 0)
       && (amin =? 1) && (amax =? N.min max distinct)
+  | CResume n recv mismatch undec ran => ran && (recv =? n) && (mismatch =? 0) && (undec =? 0)
   end.
 
 Fixpoint mismatches_from (i : nat) (cs : list case) : list nat :=
